@@ -1,9 +1,11 @@
 #!/usr/bin/env python3
 """vx/mutscore.py: a mechanical measure of how much the contracts pin down.
 
-For every function that a Verus unit verifies WHOLE (`//@ fn`, not stubs, not regions) up to K random one-token mutants of
-its real text in /repo/src are made (comparison and boolean operators flipped, `+ 1`/`- 1` shifted, `true`/`false` swapped,
-a negation dropped); each mutant is written to a scratch copy of the sources and the function's unit is run against it.
+For every function that a Verus unit verifies WHOLE (`//@ fn`, not stubs) - and, with `--regions`, for every function a
+region is taken from (4K sites there; a mutant that leaves the generated text unchanged lies outside the region and is not
+counted) - up to K random one-token mutants of its real text in /repo/src are made (comparison and boolean operators flipped,
+`+ 1`/`- 1` shifted, `true`/`false` swapped, a negation dropped); each mutant is written to a scratch copy of the sources
+and the function's unit is run against it.
   killed     - an obligation fails (the check would print VIOLATION)
   undecided  - the generator lost an anchor or the verifier met a construct it cannot handle (exit 2, no alarm)
   survived   - everything still verifies: the mutant is equivalent, or the contracts do not pin this token down
@@ -49,7 +51,7 @@ def sites_of(text):
             out.append((mm.start(), old, new))
     return out
 
-def collect(units, k, seed):
+def collect(units, k, seed, regions=False):
     rnd = random.Random(seed)
     G = gen.Generator(repo="/repo", verif=V)
     todo, seen = [], set()
@@ -59,9 +61,14 @@ def collect(units, k, seed):
         except Exception as e:
             print("skip %s: %r" % (u, e)); continue
         for it in g.items:
-            if it.get("kind") != "fn" or it.get("mode") != "verified" or it["name"].endswith("[region]"):
+            if it.get("kind") != "fn" or it.get("mode") != "verified":
                 continue
-            key = (it["src"], it["name"])
+            is_region = it["name"].endswith("[region]")
+            if is_region and not regions:
+                continue
+            if is_region:
+                it = dict(it, name=it["name"][:-len("[region]")])
+            key = (u, it["src"], it["name"])
             if key in seen:
                 continue
             seen.add(key)
@@ -76,9 +83,9 @@ def collect(units, k, seed):
             body = sf.src[b0:b1]
             ss = sites_of(body)
             rnd.shuffle(ss)
-            for (off, old, new) in ss[:k]:
+            for (off, old, new) in ss[:(k * 4 if is_region else k)]:
                 line = sf.src.count("\n", 0, b0 + off) + 1
-                todo.append(dict(unit=u, fn=it["name"], src=it["src"], offset=b0 + off, old=old, new=new, line=line))
+                todo.append(dict(unit=u, fn=it["name"] + ("[region]" if is_region else ""), src=it["src"], offset=b0 + off, old=old, new=new, line=line))
     return todo
 
 def one(unit, rel, offset, oldlen, new):
@@ -91,6 +98,13 @@ def one(unit, rel, offset, oldlen, new):
         s = s[:offset] + new + s[offset + oldlen:]
         open(p, "w", encoding="utf-8").write(s)
         run.WORK = os.path.join(d, "work")
+        # a mutant outside every extracted region leaves the generated text as it was: it is not a mutant of verified code
+        try:
+            if gen.Generator(repo=d, verif=V).generate(unit).text() == gen.Generator(repo="/repo", verif=V).generate(unit).text():
+                print("MUTRESULT " + json.dumps(dict(status="outside", reason="outside the extracted text", failed=[], props=[])))
+                return
+        except Exception:
+            pass
         r = run.run_unit(unit, (), d, False)
         res = dict(status=r.status, reason=(r.reason or "")[:200],
                    failed=sorted({(f.get("tag") or f.get("kind") or "?")[:80] for f in r.failures}),
@@ -109,11 +123,12 @@ def worker(m):
         res = dict(status="undecided", reason="timeout", failed=[], props=[])
     m = dict(m)
     m.update(res)
-    m["verdict"] = "killed" if res["failed"] else ("undecided" if res["status"] == "undecided" else "survived")
+    m["verdict"] = "killed" if res["failed"] else ("outside" if res["status"] == "outside" else ("undecided" if res["status"] == "undecided" else "survived"))
     return m
 
 def table(rs):
     by = {}
+    rs = [m for m in rs if m["verdict"] != "outside"]
     for m in rs:
         by.setdefault(m["unit"], []).append(m)
     tot = dict(killed=0, undecided=0, survived=0)
@@ -167,22 +182,25 @@ def main():
         tests_stage(); return
     if a and a[0] == "--table":
         table(json.load(open(OUT))); return
-    k, seed, jobs, units = 2, 1, 12, None
+    k, seed, jobs, units, regions = 2, 1, 12, None, False
     i = 0
     while i < len(a):
         if a[i] == "--k": k = int(a[i + 1]); i += 2
         elif a[i] == "--seed": seed = int(a[i + 1]); i += 2
         elif a[i] == "--jobs": jobs = int(a[i + 1]); i += 2
+        elif a[i] == "--regions": regions = True; i += 1
         elif a[i] == "--units": units = [u for u in run.all_units() if u.split("_")[0] in a[i + 1].split(",")]; i += 2
         else: i += 1
     units = units or run.all_units()
-    todo = collect(units, k, seed)
+    todo = collect(units, k, seed, regions)
     print("%d mutants of %d units" % (len(todo), len(units)), flush=True)
     rs = []
     t0 = time.time()
     with cf.ThreadPoolExecutor(max_workers=jobs) as ex:
         for m in ex.map(worker, todo):
             rs.append(m)
+            if m["verdict"] == "outside":
+                continue
             print("%-9s %s %s:%d %r -> %r %s" % (m["verdict"], m["unit"], m["src"], m["line"], m["old"], m["new"], ",".join(m["failed"])[:90] or m["reason"][:90]), flush=True)
             json.dump(rs, open(OUT, "w"), indent=1)
     print("wall %.0f s" % (time.time() - t0))
